@@ -3,15 +3,25 @@ package c14
 import (
 	"fmt"
 	"os"
+	"path/filepath"
 	"runtime"
 	"runtime/debug"
 	"testing"
+	"time"
 )
 
 func TestMain(m *testing.M) {
 	// the live heap of a case is a few MB while every request compiles pipelines through
 	// reflection: with the default GC target a third of the CPU goes into collections
 	debug.SetGCPercent(1000)
+	// case directories of processes that were killed (time-out) are not left behind for ever
+	if old, _ := filepath.Glob(filepath.Join(scratchBase(), "verif-c14-*")); len(old) > 0 {
+		for _, d := range old {
+			if st, err := os.Stat(d); err == nil && time.Since(st.ModTime()) > 2*time.Hour {
+				os.RemoveAll(d)
+			}
+		}
+	}
 	rc := m.Run()
 	if os.Getenv("C14_MEMSTATS") != "" {
 		var ms runtime.MemStats
